@@ -59,6 +59,9 @@ def weights(kind, n, steps):
     if kind == "tma":
         a = 2.0 / (n + 1)
         return [(k + 1) * (k + 2) / 2 * a ** 3 * (1 - a) ** k for k in range(steps)]
+    if kind == "linreg":
+        # value of the least-squares line at the newest point: w_k = 2 (2n - 1 - 3k) / (n (n + 1)) for the last n inputs
+        return [2.0 * (2 * n - 1 - 3 * k) / (n * (n + 1)) if k < n else 0.0 for k in range(steps)]
     return None
 
 
@@ -103,6 +106,24 @@ def run(ctx):
                 checks.append(("affine", kind, nn, t0, t1, -1.0, 0.0, ts))
             cst = add(k, n, x0, [x0] * 30, "constant")
             checks.append(("const", kind, n, cst, x0))
+            # streams over a three-letter dyadic alphabet: the incoming value often EQUALS the value leaving the window while the
+            # window is not constant (an update that is skipped "because nothing changed" breaks superposition there)
+            if kind in LINEAR and rep < 2:
+                nn = max(lo, min(hi, rng.choice([2, 3, 4, 5])))
+                qs = [float(rng.choice([0, 1, 2])) for _ in range(steps)]
+                rs = [float(rng.choice([0, 4, 8])) for _ in range(steps)]
+                q0 = add(k, nn, qs[0], qs, "base-alphabet")
+                r0 = add(k, nn, rs[0], rs, "base-alphabet-y")
+                s0 = add(k, nn, qs[0] + rs[0], [x + y for x, y in zip(qs, rs)], "sum-alphabet")
+                checks.append(("super", kind, nn, q0, r0, s0, qs, rs))
+            # the moving median is an exact selection: also on finite values of extreme magnitude and opposite signs its output
+            # stays between the smallest and the largest value it has been given (no overflow in the mean of the two middle ones)
+            if kind == "smm" and rep < 2:
+                ext = [1.7e308, -1.7e308, 9e307, -9e307, 1e308, -1e308, 1.0, -1.0, 0.0, 5e-324]
+                for nn in (2, 4, 3):
+                    es = [rng.choice(ext) for _ in range(steps)]
+                    e0 = add(k, nn, es[0], es, "extreme-magnitudes")
+                    checks.append(("range", kind, nn, e0, es[0], es))
         # impulse response for ALL lengths
         if weights(kind, 3, 5) is not None:
             for n in range(lo, hi + 1) if ctx.tier == "thorough" else sorted(set(list(range(lo, min(hi, 20) + 1)) + [rng.range(lo, hi) for _ in range(12)] + [hi, 64, 127])):
